@@ -100,10 +100,12 @@ def extract(repo="/repo", config="all", target_tag=None, keep_target=True):
     out = os.path.join(CACHE, "facts", "%s-%s-%s" % (config, th, dh))
     meta_p = os.path.join(out, "meta.json")
     if os.path.exists(meta_p):
-        os.utime(out, None)
-        meta = json.load(open(meta_p))
-        meta["repo"] = repo          # the cache entry may come from another checkout with identical sources
-        return out, meta
+        meta = _complete_entry(out, meta_p)
+        if meta is not None:
+            os.utime(out, None)
+            meta["repo"] = repo          # the cache entry may come from another checkout with identical sources
+            return out, meta
+        shutil.rmtree(out, ignore_errors=True)      # a damaged entry (interrupted run): extract again
     tag = target_tag or os.environ.get("NUTS_VERIF_TARGET_TAG") or config
     target = os.path.join(CACHE, "target-%s" % tag)
     os.makedirs(target, exist_ok=True)
@@ -174,6 +176,20 @@ def extract(repo="/repo", config="all", target_tag=None, keep_target=True):
         if not keep_target:
             shutil.rmtree(target, ignore_errors=True)
         return out, meta
+
+
+def _complete_entry(out, meta_p):
+    """The meta data of a cache entry, if every fact file it lists is there."""
+    try:
+        meta = json.load(open(meta_p))
+    except (OSError, ValueError):
+        return None
+    for f in meta.get("files") or []:
+        if not os.path.exists(os.path.join(out, f)):
+            return None
+    if not os.path.exists(os.path.join(out, "nuts_rs.facts.jsonl")):
+        return None
+    return meta
 
 
 def _gc(keep=120):
